@@ -242,6 +242,15 @@ def decorate (cfg : Cfg) (f : Function) : Function :=
 def packageDoc (cfg : Cfg) (p : Pkg) : String :=
   "\n".intercalate (((sortBy (·.name) p.files).map fun f => cfg.docText f.pkgDoc).filter (· ≠ ""))
 
+/-- the (path, alias) pairs of the aliased `mage:import` tags, in order of first mention, each once: a package tagged
+under two aliases contributes under both (D27) -/
+def namedStep (acc : List (String × String)) (pt : String × Tagged) : List (String × String) :=
+  match pt.2 with
+  | .named a => if acc.contains (pt.1, a) then acc else acc ++ [(pt.1, a)]
+  | _ => acc
+
+def collectNamed (tagged : List (String × Tagged)) : List (String × String) := tagged.foldl namedStep []
+
 /-- parse.PrimaryPackage (then `sort.Sort(info.Funcs)`, `sort.Sort(info.Imports)` of Invoke) -/
 def primary (cfg : Cfg) (w : World) (p : Pkg) : Except BuildErr PkgInfo :=
   match package p with
@@ -253,9 +262,7 @@ def primary (cfg : Cfg) (w : World) (p : Pkg) : Except BuildErr PkgInfo :=
     let tagged := specs.map fun sp => (sp.path, getImportTag cfg.importTag cfg.lenConst cfg.fields sp)
     -- importNames[path] = set of aliases: a package tagged under two aliases contributes under both (D27 fix);
     -- the same (path, alias) mentioned twice counts once
-    let named : List (String × String) := tagged.foldl (fun acc (path, t) => match t with
-      | .named a => if acc.contains (path, a) then acc else acc ++ [(path, a)]
-      | _ => acc) []
+    let named : List (String × String) := collectNamed tagged
     let roots : List String := tagged.filterMap fun (path, t) => match t with | .root => some path | _ => none
     -- getNamedImports: paths in order, the aliases of one path in order (mergeSort is stable)
     let namedSorted := sortBy (·.1) (sortBy (·.2) named)
